@@ -1,6 +1,6 @@
 (* Property C20 — the result-cache index returns exactly the stored entries matching a lookup.
    Only statements, `exact`, and Print Assumptions live here. *)
-From EQL Require Import Base IndexedCache IndexedCache_Facts.
+From EQL Require Import Base IndexedCache IndexedCache_Facts IndexedCache_Sound.
 From Coq Require Import Permutation.
 
 (* Coverage: after ANY well-formed history (inserts under non-empty bindings over the key list,
@@ -43,3 +43,18 @@ Theorem C20_retrieve_refuted :
     ~ Permutation (ic_retrieve (impl s) l) (spec_retrieve ks (spec s) l).
 Proof. exact retrieve_complete_refuted. Qed.
 Print Assumptions C20_retrieve_refuted.
+
+(* The SOUND half of retrieval holds, for every key list (at least one key), every well-formed history and every lookup:
+   whatever retrieve returns is the output currently stored for an entry of the reference store whose binding is compatible
+   with the lookup - retrieval never invents an entry, never returns an overwritten output, never returns an entry that
+   contradicts the lookup.  With C20_retrieve_refuted this fixes the direction of the known finding: entries are LOST only. *)
+Theorem C20_retrieve_sound : forall ks ops l r o, ks <> [] -> forallb (op_ok ks) ops = true ->
+  In (r, o) (ic_retrieve (impl (state_after ks ops)) l) ->
+  exists b, In (b, o) (spec (state_after ks ops)) /\ compatible ks b l = true.
+Proof. exact retrieve_sound. Qed.
+Print Assumptions C20_retrieve_sound.
+
+Example C20_retrieve_sound_nonvacuous :
+  let ks := [1; 2] in let ops := [OIns [(1, 0)] 7; OIns [(2, 0)] 8; OIns [(1, 0)] 9] in
+  forallb (op_ok ks) ops = true /\ map snd (ic_retrieve (impl (state_after ks ops)) [(1, 0)]) = [9].
+Proof. split; vm_compute; reflexivity. Qed.
